@@ -766,6 +766,10 @@ def print_value(e, t, tmp):      # noqa: F811  (extends the earlier definition w
 # ------------------------------------------------------------------------------------------ C06: index / slice / cast domains
 FUNCS_C06 = FUNCS + [
     fn("plus_eins", [("z", TZ, True)], TNONE, [setv(lvid("z"), bin_("plus", ident("z"), zl(1)))]),
+    # functions used INSIDE an index expression that change the length of the indexed (global) list: the bound that counts is the one
+    # the list has when the element is reached (container, then index expression, then the access)
+    fn("kuerze_glob", [("neu", TZ, False)], TZ, [var("alt", TZ, un("len", ident("glob_l")), False), setv(lvid("glob_l"), bin_("sto", ident("glob_l"), ident("neu"))), RET(ident("alt"))]),
+    fn("verlaengere_glob", [], TZ, [setv(lvid("glob_l"), bin_("cat", ident("glob_l"), zl(9))), RET(un("len", ident("glob_l")))]),
 ]
 
 
@@ -774,6 +778,14 @@ def domain_cases(tier, rng):
 
     def add(key, setup, e, t):
         cases.append(Case(key, e, t, setup))
+    for k in (0, 1, 2, 3):
+        shrink = call("kuerze_glob", [("neu", zl(k))])
+        add("idx:effect:shrink-in-index:assign:%d" % k, [setv(idx_lv(lvid("glob_l"), shrink), zl(99))], ident("glob_l"), TL(TZ))
+        add("idx:effect:shrink-in-index:referenz:%d" % k, [{"k": "expr", "e": call("plus_eins", [("z", idx_lv(lvid("glob_l"), shrink))])}], ident("glob_l"), TL(TZ))
+        add("idx:effect:shrink-in-index:compound:%d" % k, [{"k": "cset", "op": "plus", "lv": idx_lv(lvid("glob_l"), shrink), "e": zl(1)}], ident("glob_l"), TL(TZ))
+    grow = call("verlaengere_glob", [])
+    add("idx:effect:grow-in-index:assign", [setv(idx_lv(lvid("glob_l"), grow), zl(99))], ident("glob_l"), TL(TZ))
+    add("idx:effect:grow-in-index:referenz", [{"k": "expr", "e": call("plus_eins", [("z", idx_lv(lvid("glob_l"), grow))])}], ident("glob_l"), TL(TZ))
     maxlen = 3 if tier == "quick" else 4
     extremes = [MAXI, MINI] if tier == "quick" else [1 << 31, -(1 << 31), MAXI, MAXI - 1, MINI, MINI + 1, 1 << 32, (1 << 32) + 1]
     containers = []
